@@ -42,6 +42,7 @@ impl<T: Read + Seek> E57Reader<T> {
         // Set up paged reader for the CRC page layer
         let mut reader = PagedReader::new(reader, header.page_size)
             .read_err("Failed creating paged CRC reader")?;
+        Self::validate_header_page(&mut reader)?;
 
         // Read and parse XML data
         let xml_raw = Self::extract_xml(
@@ -180,9 +181,23 @@ impl<T: Read + Seek> E57Reader<T> {
         // Create paged CRC reader
         let mut paged_reader =
             PagedReader::new(reader, page_size).read_err("Failed creating paged CRC reader")?;
+        Self::validate_header_page(&mut paged_reader)?;
 
         // Read XML data
         Self::extract_xml(&mut paged_reader, xml_offset, xml_length as usize)
+    }
+
+    /// The file header is read without the CRC page layer because it contains the page size.
+    /// Reading it again through the page layer validates the checksum of its page,
+    /// an altered header must not be trusted.
+    fn validate_header_page(reader: &mut PagedReader<T>) -> Result<()> {
+        let mut header = [0_u8; 48];
+        reader
+            .seek_physical(0)
+            .read_err("Failed to seek to start of file header")?;
+        reader
+            .read_exact(&mut header)
+            .read_err("Failed to validate checksum of file header")
     }
 
     fn get_u64(reader: &mut T, offset: u64, name: &str) -> Result<u64> {
